@@ -28,3 +28,14 @@ impl vstd::std_specs::cmp::PartialEqSpecImpl for LineTerminatorImp {
     open spec fn obeys_eq_spec() -> bool { true }
     open spec fn eq_spec(&self, other: &LineTerminatorImp) -> bool { *self == *other }
 }
+
+// ASSUMPTION (T-std): `#[derive(PartialEq)]` on LineTerminator is structural equality.
+impl vstd::std_specs::cmp::PartialEqSpecImpl for LineTerminator {
+    open spec fn obeys_eq_spec() -> bool { true }
+    open spec fn eq_spec(&self, other: &LineTerminator) -> bool { *self == *other }
+}
+
+// the spec accessors are machine integers
+pub broadcast proof fn lemma_match_range(m: Match)
+    ensures 0 <= #[trigger] m.s() <= usize::MAX, 0 <= #[trigger] m.e() <= usize::MAX,
+{}
